@@ -55,8 +55,30 @@ pub fn debug_cmd(args: &[String]) {
             println!("diagnostics found={e}:\n{d}");
             match c08::front(&db, "test", &src, settings) {
                 Ok(c08::Front::Rejected(_)) => println!("front: rejected"),
-                Ok(c08::Front::Program(p)) => println!("front: program with {} statements; back: {:?}", p.statements.len(), c08::back(&p)),
+                Ok(c08::Front::Program(p)) => {
+                    if std::env::var("VERIF_PRINT_SIERRA").is_ok() {
+                        println!("{p}");
+                    }
+                    println!("front: program with {} statements; back: {:?}", p.statements.len(), c08::back(&p))
+                }
                 Err(e) => println!("front: VIOLATION {e:?}"),
+            }
+        }
+        Some("run") => {
+            // dbg run <file>: compiles under the default and the unoptimised configuration and runs `main()`.
+            let src = std::fs::read_to_string(&args[1]).unwrap();
+            for cfg in [crate::core::exec::FrontCfg::default_cfg(), crate::core::exec::FrontCfg { optimizations: false, inlining: 0, skip_const_folding: true, match_threshold: None }] {
+                let db = cfg.new_db(crate::core::cairo::Plugins::Default);
+                match crate::core::exec::compile_source(&db, "test", &src, crate::core::exec::MetaCfg::linear()) {
+                    Ok(c) => {
+                        let f = c.runner.find_function("::main").unwrap().clone();
+                        match crate::core::exec::run(&c, &f, vec![], Some(execs::BIG_GAS)) {
+                            Ok(e) => println!("[{}] -> {:?}", cfg.describe(), e.value),
+                            Err(e) => println!("[{}] run error {:?}", cfg.describe(), e),
+                        }
+                    }
+                    Err(e) => println!("[{}] compile error {:?}", cfg.describe(), e),
+                }
             }
         }
         Some("c14felts") => {
